@@ -179,7 +179,7 @@ fn rigid(idx: u64, rng: &mut Rng, mon: &mut Mon) {
 }
 
 fn collinear(idx: u64, rng: &mut Rng, mon: &mut Mon) {
-    let mode = rng.usize(4);
+    let mode = rng.usize(6);
     let (p, q, expect_source): ([V3; 3], [V3; 3], bool) = match mode {
         // floating point collinear sources, rigid images
         0 | 1 => {
@@ -201,6 +201,22 @@ fn collinear(idx: u64, rng: &mut Rng, mon: &mut Mon) {
             let p3 = add(p1, scale(d, rng.int(2, 6) as f64));
             let sh = [rng.int(-20, 20) as f64, rng.int(-20, 20) as f64, rng.int(-20, 20) as f64];
             ([p1, p2, p3], [add(p1, sh), add(p2, sh), add(p3, sh)], true)
+        }
+        // coincident source points (p1 == p2, p1 == p3, p2 == p3 or all three): a zero-length edge
+        4 => {
+            let (a, b, c, _) = triangle(rng, 0.3);
+            let p = match rng.usize(4) { 0 => [a, a, c], 1 => [a, b, a], 2 => [a, b, b], _ => [a, a, a] };
+            let m = if rng.bool(0.5) { Fr::id() } else { motion(rng) };
+            (p, [m.apply(p[0]), m.apply(p[1]), m.apply(p[2])], true)
+        }
+        // a proper but tiny source triangle (legs below the 5 mm congruence tolerance), two target points coincide
+        5 => {
+            let a = [rng.range(-1.0, 1.0), rng.range(-1.0, 1.0), rng.range(-1.0, 1.0)];
+            let (u, v) = (unit(rng), unit(rng));
+            let p = [a, add(a, scale(u, rng.range(5e-4, 2e-3))), add(a, scale(v, rng.range(5e-4, 2e-3)))];
+            let sh = [rng.range(-1.0, 1.0), rng.range(-1.0, 1.0), rng.range(-1.0, 1.0)];
+            let q = match rng.usize(3) { 0 => [add(p[0], sh), add(p[0], sh), add(p[2], sh)], 1 => [add(p[0], sh), add(p[1], sh), add(p[0], sh)], _ => [add(p[0], sh), add(p[0], sh), add(p[0], sh)] };
+            (p, q, false)
         }
         // sources a flat but real triangle (height below the 5 mm congruence tolerance), targets collinear
         _ => {
@@ -238,8 +254,8 @@ fn collinear(idx: u64, rng: &mut Rng, mon: &mut Mon) {
         }
     }
     mon.count("collinear.expected_rejections");
-    mon.count(&format!("collinear.mode.{}", ["float_identity", "float_moved", "integer_exact", "flat_source_collinear_target"][mode]));
-    let sig_mode = ["float", "float", "integer", "target"][mode];
+    mon.count(&format!("collinear.mode.{}", ["float_identity", "float_moved", "integer_exact", "flat_source_collinear_target", "coincident_sources", "coincident_targets"][mode]));
+    let sig_mode = ["float", "float", "integer", "target", "coincident", "coincident-target"][mode];
     match res {
         Ok(_) => mon.violation(&format!("collinear:accepted:{}", sig_mode), "collinear points were accepted as a frame definition", json!({"points": points_json(&p, &q), "expected_source_flag": expect_source})),
         Err(e) => {
